@@ -241,7 +241,8 @@ Definition u8_from_hex2 (c1 c2 : chr) : option N :=
   end.
 
 (* The inner `for _ in 0..2` of read_escaped_bytes: Some (two chars) and the number of characters
-   consumed, or None (at end / hit the closing quote, which is un-read). *)
+   consumed, or None (at end / hit the closing quote, which is un-read).  The `self.line += 1` for a
+   consumed "\n" is applied by string_loop when it passes over the consumed characters. *)
 Definition read2 (cs : list chr) : option (chr * chr) * nat :=
   match cs with
   | [] => (None, 0)
@@ -317,14 +318,25 @@ Definition hex_escape (c : chr) : option (nat * string) :=
   else None.
 
 (* fn string.  `skip` = number of upcoming characters already consumed by an escape sequence;
-   `buf` = `buffer`, reversed; `err` = `error`. *)
+   `buf` = `buffer`, reversed; `err` = `error`.
+   Lines (since /repo 914ba97): read_escaped_bytes does `if read_chars.ends_with('\n') { self.line += 1; }`
+   after every character it pushes (read_chars is reset per byte, so after the first push it ends with
+   '\n' iff the first character is "\n", after the second iff the second is), i.e. EVERY raw line break among
+   the 2/4/8 characters of a \x / \u / \U escape counts - also when the escape then fails.  The model
+   passes over those characters with `skip`, so the `S k` branch counts a skipped "\n".  (The first skipped
+   character is the escape letter itself - `n`, `x`, `u`, ... - never a line break.)  Before 914ba97 the
+   skipped characters never changed `line` (finding escape_swallows_newline, fixed).
+   STILL not counted (scanner.rs today): the character consumed right after `\` or `$` when it makes the
+   token an error ("Invalid escape sequence." / "Expected '{' in string interpolation.") - if that
+   character is a raw line break, every later token of the compilation is one line short
+   (ScannerLineExact.v: line_exact_refuted_escape / line_exact_refuted_dollar). *)
 Fixpoint string_loop (cs : list chr) (skip : nat) (buf : list byte) (err : option string)
          (pos : nat) (line : N) (parens : list N) : token * sstate :=
   match cs with
   | [] => (error_token line "Unterminated string.", mkS [] pos line parens)
   | c :: r =>
     match skip with
-    | S k => string_loop r k buf err (pos + length c) line parens
+    | S k => string_loop r k buf err (pos + length c) (if chr_is c "010" then line + 1 else line) parens
     | O =>
       if chr_is c """" then
         (match err with
